@@ -5,6 +5,7 @@ package jd
 func init() {
 	vHarnesses["VerifC08Hunk"] = VerifC08Hunk
 	vHarnesses["VerifC08Keyed"] = VerifC08Keyed
+	vHarnesses["VerifC08Keyed2"] = VerifC08Keyed2
 	vHarnesses["VerifC08Diff"] = VerifC08Diff
 	vHarnesses["VerifC08Canary"] = VerifC08Canary
 	vHarnesses["VerifC08Members"] = VerifC08Members
@@ -266,6 +267,81 @@ func VerifC08Keyed() {
 		vAssert(refEq(p, want, modeSet, 0), "keyed-member hunk applied with a result other than the reference result")
 	}
 	vCover("c08.keyed")
+}
+
+// VerifC08Keyed2: keyed members identified by TWO keys ({"a":x,"b":y}): the member addressed is
+// the one whose a equals the path's a AND whose b equals the path's b — a member holding the
+// same values under exchanged keys, or lacking one of the keys, is not it.
+func VerifC08Keyed2() {
+	n := vChoice(vParam("N", 2) + 1)
+	c := make(jsonArray, n)
+	as, bs, vals := make([]float64, n), make([]float64, n), make([]float64, n)
+	has := make([]int, n) // 0 both keys, 1 only a, 2 only b
+	for i := range c {
+		as[i], bs[i], vals[i] = vF64(), vF64(), vF64()
+		o := jsonObject{"v": jsonNumber(vals[i])}
+		has[i] = vChoice(1 + 2*vParam("PARTIAL", 1))
+		if has[i] != 2 {
+			o["a"] = jsonNumber(as[i])
+		}
+		if has[i] != 1 {
+			o["b"] = jsonNumber(bs[i])
+		}
+		c[i] = o
+	}
+	pa, pb := vF64(), vF64()
+	matches := func(i int) bool { return has[i] == 0 && as[i] == pa && bs[i] == pb }
+	for i := range c {
+		for j := 0; j < i; j++ {
+			vAssume(!(matches(i) && matches(j)))
+		}
+	}
+	r, a := vF64(), vF64()
+	kind := vChoice(3)
+	keys := PathSetKeys{"a": jsonNumber(pa), "b": jsonNumber(pb)}
+	var h DiffElement
+	switch kind {
+	case 0:
+		h = DiffElement{Path: Path{keys, PathKey("v")}, Remove: []JsonNode{jsonNumber(r)}, Add: []JsonNode{jsonNumber(a)}}
+	case 1:
+		h = DiffElement{Path: Path{keys, PathKey("v")}, Remove: []JsonNode{jsonNumber(r)}}
+	default:
+		h = DiffElement{Path: Path{keys, PathKey("w")}, Add: []JsonNode{jsonNumber(a)}}
+	}
+	if vKnown("hash.alias") {
+		vAssumeNoHashAlias(c, c)
+	}
+	p, err := vClone(c).Patch(Diff{h})
+	match := -1
+	for i := range c {
+		if matches(i) {
+			match = i
+		}
+	}
+	wantOk := match >= 0
+	want := vClone(c).(jsonArray)
+	if match >= 0 {
+		o := want[match].(jsonObject)
+		switch kind {
+		case 0:
+			wantOk = vals[match] == r
+			o["v"] = jsonNumber(a)
+		case 1:
+			wantOk = vals[match] == r
+			delete(o, "v")
+		default:
+			o["w"] = jsonNumber(a)
+		}
+	}
+	vObserve("err", err != nil)
+	if vKnown("keyed.nested") && match >= 0 {
+		vAssume(wantOk)
+	}
+	vAssert((err == nil) == wantOk, "two-key member hunk accepted/rejected against the reference semantics")
+	if err == nil {
+		vAssert(refEq(p, want, modeSet, 0), "two-key member hunk applied with a result other than the reference result")
+	}
+	vCover("c08.keyed2")
 }
 
 // VerifC08Diff: a generated set/multiset diff applied to perturbed targets.
